@@ -642,6 +642,17 @@ PLANS["C04"] = dict(
                  select=slicer(60000)),
         drive=dict(driver="verifier"),
         validate=dict(module="Trace_Verifier", cfg=trace_cfg(["verdict", "outcome", "authenticity", "results", "actions"])),
+    ), dict(
+        # the identities that pin are those of the document as it is: the statement handed out for a repository is a copy of its own
+        # (editing it - its identity list included - changes nothing for later verifications) ...
+        name="statement-copies", gen=dict(module="MC_TrustPolicy_C08", select=slicer2(12000, 200000),
+                                          cfg=lambda tier, seed: mc_cfg(["Inv_ClonePrivate", "Inv_Emit"], consts=['Kind = "oci"', "MaxStmts = 2", 'Variant = "pairs"', 'Names = {"n1", "n2"}'])),
+        drive=dict(driver="policy-select"),
+        validate=dict(module="Trace_TrustPolicy", cfg=trace_cfg(consts=['Mode = "select"']), only_rules=["clone-private", "no-panic"]),
+    ), dict(
+        # ... and those of the policy FILE as it is now (nothing is remembered about a file between two loads)
+        name="policy-files", gen=dict(module="MC_PolicyFiles", cfg=mc_cfg(["Inv_Trust", "Inv_Emit"]), select=take_all),
+        drive=dict(driver="policyfiles"), validate=dict(module="Trace_PolicyFiles", cfg=trace_cfg(), only_rules=["reload-reflects-the-file", "trust-from-the-file-used", "no-panic"]),
     )],
 )
 
